@@ -8,13 +8,14 @@ i = s.index('### 9.5 Sensitivity')
 j = s.find('\n### 9.6', i)
 head, tail = s[:i], (s[j:] if j >= 0 else '')
 rows = [json.load(open(f)) for f in sorted(glob.glob('/verif/seeded/*/meta.json'))]
-def first(m): return not m.get('detection', '').startswith('MISSED')
+def first(m): return not m.get('detection', '').startswith('MISSED') and not m.get('detection', '').startswith('NOT CAUGHT')
+def notcaught(m): return m.get('detection', '').startswith('NOT CAUGHT')
 r1 = [m for m in rows if m.get('round', 1) == 1]
 r2 = [m for m in rows if m.get('round', 1) == 2]
 r3 = [m for m in rows if m.get('round', 1) == 3]
 tbl = ["| change | round | what it needs | caught by check | class | at first try |", "|---|---|---|---|---|---|"]
 for m in rows:
-    tbl.append(f"| {m['id']} | {m.get('round', 1)} | {m.get('needs_to_manifest', '')} | {m.get('detected_by_check', '')} | `{m.get('violation_class', '')}` | {'yes' if first(m) else 'no'} |")
+    tbl.append(f"| {m['id']} | {m.get('round', 1)} | {m.get('needs_to_manifest', '')} | {m.get('detected_by_check', '')} | `{m.get('violation_class', '')}` | {'NOT CAUGHT' if notcaught(m) else ('yes' if first(m) else 'no')} |")
 strength = [f"* {m['id']}: {m['detection']}" for m in rows if not first(m)]
 sweep = [l.rstrip('\n').split('\t') for l in open('/verif/seeded/revert_sweep.tsv')]
 first_pass = [l for l in sweep if 're-run' not in l[2]]
@@ -40,7 +41,7 @@ caught by the check as it stood, {sum(not first(m) for m in r1)} only after the 
 strengthened. Round 2 asked different agents for *less obvious* changes
 (secondary clauses, error/expiry/cancellation paths, per-instance vs shared
 state, second uses of an object, special values): {len(r2)} so far, {sum(first(m) for m in r2)} caught at
-once, {sum(not first(m) for m in r2)} after strengthening. Round 3 asked a third set of agents for yet other directions (helper code, extreme configuration values, N-th use and declaration order, cooperating edits, ten or more parties) on the four properties with the most misses so far: {len(r3)} changes, {sum(first(m) for m in r3)} caught at once. None is still missed. Every strengthening was
+once, {sum(not first(m) for m in r2)} after strengthening. Round 3 asked a third set of agents for yet other directions (helper code, extreme configuration values, N-th use and declaration order, cooperating edits, ten or more parties) on eight properties: {len(r3)} changes, {sum(first(m) for m in r3)} caught at once, {sum((not first(m)) and (not notcaught(m)) for m in r3)} after strengthening (that one exposed a genuine defect of the unchanged code), {sum(notcaught(m) for m in r3)} not caught: C02-5, starvation by a busy-polling task, which virtual time cannot show (section 7). Every strengthening was
 first run on the unchanged tree (it must stay silent there); two of them found
 further genuine defects in the unchanged code (the reassembly `div_ceil`
 overflow and Forward's pre-barrier session, section 9.3).
